@@ -13,7 +13,8 @@ MANIFEST = {
             "the energy of each polarisation is exp(-alpha' L) times the input energy, the steps sum to L, the dispersionless "
             "branch is out = in*exp(-alpha' L/2)*exp(j*gamma*|in|^2*L_eff) with L_eff=(1-exp(-alpha' L))/alpha' (L for alpha'=0), a "
             "one-polarisation input propagates exactly like the x-polarisation of the two-polarisation signal with empty y, and "
-            "the loop terminates within a fuel bound computed from L, gamma, phi_max and the input energy.  Tie: the same "
+            "the loop terminates within a fuel bound computed from L, gamma, phi_max and the input energy; for gamma = 0 the model is "
+            "proved to coincide with C07's linear fibre (one step of the whole length).  Tie: the same "
             "definitions executed at Float (the model computes its own adaptive schedule) against FIBER(): final field and "
             "number of steps.",
     "note": "Convergence to the NLSE as phi_max->0 (first order) is NOT a theorem: it is checked by the oracle against an independent "
